@@ -1382,28 +1382,50 @@ mod handle_cache_helpers {
         } else {
             (uri_key, None)
         };
+        // The new variant joins the ones already cached only if it could have been cached on
+        // its own: the same checks as in `maybe_cache`.
+        let variant_lifetime = host.response_cache.as_ref().and_then(|cache| {
+            let identity = compressed_response.get_identity();
+            get_cache(
+                host,
+                server_cache,
+                identity.status(),
+                request.method(),
+                &future,
+                || {},
+            )?;
+            if !cache.fits(identity.body().len()) {
+                return None;
+            }
+            comprash::ResponseCache::storage_lifetime(&compressed_response)
+        });
         #[allow(clippy::single_match_else)]
-        let arc = match cached {
-            (key, Some((resp, lifetime))) => {
+        let arc = match (cached, variant_lifetime) {
+            ((key, Some((resp, lifetime))), Some(variant_lifetime)) => {
                 let mut resp = (*resp).clone();
+                let len = compressed_response.get_identity().body().len();
                 let a = Arc::clone(resp.push_response(compressed_response, params));
                 if let Some(cache) = &host.response_cache {
-                    cache.insert(
-                        0,
-                        lifetime.2.map(|dur| {
-                            dur.saturating_sub(
-                                (OffsetDateTime::now_utc() - lifetime.0)
-                                    .max(time::Duration::ZERO)
-                                    .unsigned_abs(),
-                            )
-                        }),
-                        key,
-                        resp,
-                    );
+                    // what's left of the lifetime of the variants already there,
+                    // but not longer than the new variant may be kept
+                    let left = lifetime.2.map(|dur| {
+                        dur.saturating_sub(
+                            (OffsetDateTime::now_utc() - lifetime.0)
+                                .max(time::Duration::ZERO)
+                                .unsigned_abs(),
+                        )
+                    });
+                    let lifetime = match (left, variant_lifetime) {
+                        (Some(left), Some(variant)) => Some(left.min(variant)),
+                        (left, variant) => left.or(variant),
+                    };
+                    cache.insert(len, lifetime, key, resp);
                 }
                 a
             }
-            (_, None) => {
+            // Nothing is cached any more, or this variant stays out of the cache
+            // (`maybe_cache` then leaves what's cached alone).
+            _ => {
                 let vary_rules = host.vary.rules_from_request(request);
 
                 // SAFETY: The requirements are met; the cache we're storing this is is part of the
